@@ -17,23 +17,24 @@ type cliOpts struct {
 }
 
 type connCfg struct {
-	Script     string `json:"script"`            // duplex | upclose | downclose | abort | half | idle | zero | longidle
-	IdleMs     int    `json:"idle_ms,omitempty"` // longidle: the connection stays untouched until this long after it was opened
-	NUp        int64  `json:"n_up"`
-	NDown      int64  `json:"n_down"`
-	ClsUp      int    `json:"cls_up"`
-	ClsDown    int    `json:"cls_down"`
-	ChunkUp    int    `json:"chunk_up"`
-	ChunkDown  int    `json:"chunk_down"`
-	Pause      bool   `json:"pause"`
-	Closer     string `json:"closer"`      // U | B : who closes first (duplex, abort, idle)
-	AbortAfter int64  `json:"abort_after"` // abort: bytes the closer writes before closing
-	Early      bool   `json:"early"`       // tcpmux without passthrough: payload sent together with the CONNECT request
-	ALPN       int    `json:"alpn"`        // https: number of ALPN names offered (sizes the ClientHello)
-	PreChunk   int    `json:"pre_chunk"`   // https raw / tcpmux: chunking of the sniffed prefix (0 = one write)
-	DelayMs    int    `json:"delay_ms"`
-	SeedUp     uint64 `json:"seed_up"`
-	SeedDown   uint64 `json:"seed_down"`
+	Script      string `json:"script"`                 // duplex | upclose | downclose | abort | half | idle | zero | longidle
+	ConnectUser string `json:"connect_user,omitempty"` // tcpmux: proxy user sent instead of the proxy's own route user
+	IdleMs      int    `json:"idle_ms,omitempty"`      // longidle: the connection stays untouched until this long after it was opened
+	NUp         int64  `json:"n_up"`
+	NDown       int64  `json:"n_down"`
+	ClsUp       int    `json:"cls_up"`
+	ClsDown     int    `json:"cls_down"`
+	ChunkUp     int    `json:"chunk_up"`
+	ChunkDown   int    `json:"chunk_down"`
+	Pause       bool   `json:"pause"`
+	Closer      string `json:"closer"`      // U | B : who closes first (duplex, abort, idle)
+	AbortAfter  int64  `json:"abort_after"` // abort: bytes the closer writes before closing
+	Early       bool   `json:"early"`       // tcpmux without passthrough: payload sent together with the CONNECT request
+	ALPN        int    `json:"alpn"`        // https: number of ALPN names offered (sizes the ClientHello)
+	PreChunk    int    `json:"pre_chunk"`   // https raw / tcpmux: chunking of the sniffed prefix (0 = one write)
+	DelayMs     int    `json:"delay_ms"`
+	SeedUp      uint64 `json:"seed_up"`
+	SeedDown    uint64 `json:"seed_down"`
 }
 
 type proxyCfg struct {
@@ -48,6 +49,11 @@ type proxyCfg struct {
 	Greet  bool      `json:"greet"`
 	Conns  []connCfg `json:"conns"`
 	Serial bool      `json:"serial"` // connections one after another instead of all at once
+	// tcpmux: RouteUser = routeByHTTPUser of this proxy; DomainOf = 1-based index of the proxy of the same case whose
+	// custom domain this proxy shares (0: its own). A proxy with DomainOf and without RouteUser is the shared
+	// (catch-all) route of that domain: it serves every proxy user that has no route of its own
+	RouteUser string `json:"route_user,omitempty"`
+	DomainOf  int    `json:"domain_of,omitempty"`
 	// StrictRate: limited proxy driven by one unidirectional stream at a time, so the limiter never has two
 	// concurrent callers and the rate bound is judged without the tolerance for the rate library's over-issue
 	StrictRate bool `json:"strict_rate,omitempty"`
@@ -328,8 +334,32 @@ func genCases(n int, thorough bool, rngFor func(i int) *rand.Rand, servers []*sr
 		for _, pr := range best.pairs() {
 			covered[pr] = true
 		}
+		// tcpmux: one custom domain served by a user-routed proxy and by a shared proxy without routeByHTTPUser
+		var tm []int
+		for j := range best.Proxies {
+			if best.Proxies[j].Kind == "tcpmux" {
+				tm = append(tm, j)
+			}
+		}
+		switch {
+		case len(tm) >= 2:
+			best.Proxies[tm[0]].RouteUser = "alice"
+			best.Proxies[tm[1]].DomainOf = tm[0] + 1
+		case len(tm) == 1 && rng.Intn(2) == 0:
+			shared := genProxy(rng, thorough)
+			shared.Kind, shared.Limit, shared.LKB, shared.DomainOf = "tcpmux", "", 0, tm[0]+1
+			best.Proxies[tm[0]].RouteUser = "alice"
+			best.Proxies = append(best.Proxies, shared)
+		}
 		for j := range best.Proxies {
 			genConns(rng, &best.Proxies[j], thorough, servers[best.Server].passthrough)
+			if p := &best.Proxies[j]; p.DomainOf > 0 && p.RouteUser == "" {
+				for k := range p.Conns {
+					if k%2 == 1 {
+						p.Conns[k].ConnectUser = "nobody" // some other proxy user: served by the shared route as well
+					}
+				}
+			}
 		}
 		if rng.Intn(8) == 0 {
 			// some generated cases also get tunnels that end in a client plugin
@@ -357,6 +387,7 @@ func (cc *caseCfg) signature() string {
 	}
 	for _, p := range cc.Proxies {
 		fmt.Fprintf(&sb, "|%s,%v,%v,%v,%v,%s%d,%s,%v,%v", p.Kind, p.Enc, p.Comp, p.VEnc, p.VComp, p.Limit, p.LKB, p.PP, p.Greet, p.StrictRate)
+		fmt.Fprintf(&sb, ",%s,%d", p.RouteUser, p.DomainOf)
 		var cs []string
 		for _, c := range p.Conns {
 			cs = append(cs, fmt.Sprintf("%s:%d:%d:%d:%d:%d:%d:%s:%v", c.Script, c.NUp, c.NDown, c.ClsUp, c.ClsDown, c.ChunkUp, c.ChunkDown, c.Closer, c.Early))
@@ -404,6 +435,9 @@ func proxyTOML(name string, p *proxyCfg, localPort, remotePort int, domain strin
 		fmt.Fprintf(&sb, "customDomains = [%q]\n", domain)
 	case "tcpmux":
 		fmt.Fprintf(&sb, "multiplexer = \"httpconnect\"\ncustomDomains = [%q]\n", domain)
+		if p.RouteUser != "" {
+			fmt.Fprintf(&sb, "routeByHTTPUser = %q\n", p.RouteUser)
+		}
 	case "stcp":
 		fmt.Fprintf(&sb, "secretKey = %q\nallowUsers = [\"*\"]\n", "sk-"+name)
 	}
